@@ -51,4 +51,5 @@ CHECKS["C04"] = num_check("C04", 32000, 800000)
 CHECKS["C05"] = num_check("C05", 6400, 160000)
 CHECKS["C06"] = num_check("C06", 32000, 800000)
 CHECKS["C07"] = num_check("C07", 3200, 64000)
+CHECKS["C08"] = num_check("C08", 12800, 320000)
 CHECKS["C09"] = num_check("C09", 1600, 32000, variants=("base", "opt"))
